@@ -50,10 +50,15 @@ PROPS = {
                      "loop: inductive invariant over the windows (finished windows keep their integral because the shared end samples "
                      "are written back unchanged); resolution (default designation: closest / lower / higher search): the fixed "
                      "indices are the indices the C10 specification determines, targets are the reference-rule integrals of the "
-                     "reference intervals. All lengths, all alpha > 0, all 2x2 rule combinations, three search strategies."),
+                     "reference intervals; explicit designation (fixed_points_indices_in_x, or fixed_points_in_x, list or array): the "
+                     "fixed indices are the designated ones, each target is the reference-rule integral between the closest reference "
+                     "positions of two consecutive fixed points. All lengths, all alpha > 0, all 2x2 rule combinations, three search "
+                     "strategies, all three designation modes."),
         assumptions=[A_REAL, A_LEN, "power axioms P1-P8 for POW(r, a) on non-negative bases",
                      "derived library lemmas: np.unique of a strictly increasing array is the array; np.where(np.isin(x, x.take(c)))[0] == c",
-                     "designation by explicit positions / explicit indices: not covered by the static contract (bounded run-time monitoring only)",
+                     "derived library lemma: np.where(np.isin(x, v))[0] lists the positions in x of v[0], v[1], ... (strictly increasing x, v; "
+                     "every v[j] in x); the three derived lemmas are validated differentially against the installed NumPy on every run",
+                     "integer dtypes of y (the static model reads every array as real): bounded run-time monitoring only",
                      "precondition from the property's quantifier: selected fixed points distinct with >= 1 interior sample per interval",
                      "the corollary 'first to last fixed point = reference total' follows by SUM_SPLIT; it is not stated as a separate clause"],
     ),
